@@ -102,3 +102,24 @@ Definition C05_cursor_meets_hypotheses : Prop :=
       cons_fold cons0 (upto m) = Some cm /\ cs_any cm = true /\
       C05_meets s (cs_stack cm) (cs_nf cm) ek ck P Q hd sg /\
       ecblk ek = bref (eblk ek) /\ In (eblk ek) h.
+
+(* ------------------------------------------------------------------ goal: the serving obligation over histories *)
+
+(* A cursor minted by the stream is served at every later instant at which its LIB is still on the retained
+   canonical chain (the hub has a head whose complete segment reaches the LIB and contains the cursor LIB id).
+   Nothing is asked about the cursor block: PurgeBeforeLIB removes by number, so as long as the cursor LIB block
+   is retained every block the consumer held above it is retained too, and the branch of the cursor block
+   reaches the chain.  Together with c05_no_lib_no_source (no head, segment not reaching the LIB or cursor LIB off
+   the chain => no source) this is an equivalence. *)
+Definition C05_serves_history : Prop :=
+  forall first kept (h : list block) (k m : nat) ek hd sg,
+    wf_b h = true -> lib_ok_b LNone h = true ->
+    let cfg := hub_config first kept in
+    let tr := fk_run cfg (fs_init LNone) h in
+    let upto n := concat (map fst (firstn n tr)) in
+    let s := state_after cfg (fs_init LNone) h m in
+    nth_error (upto (length tr)) k = Some ek -> (estep ek = SNew \/ estep ek = SUndo) ->
+    (k < length (upto m))%nat ->
+    last_sent s = Some hd -> complete_segment (db s) (bref hd) = Some (sg, true) ->
+    block_in (ri (elib ek)) sg = true ->
+    exists evs, blocks_from_cursor s (ev_cursor ek) = BOk evs.
